@@ -474,22 +474,33 @@ def read_nb_rows(path=None):
     return rows
 
 
+def _lean_chars(s):
+    return "[" + ", ".join(_lean_char(c) for c in s) + "]"
+
+
 def extract_ff_tables():
+    """rule texts as explicit `List Char` literals and type names as numeric ids (position of first appearance in
+    opls.par): the kernel can then decide the whole table (`decide +kernel`) in seconds, which it cannot do through
+    `String` primitives.  The name <-> id table is emitted too."""
     rules = read_opls_rules()
     rows = read_nb_rows()
-    used = {t for _, t, _ in rules}
-    s = "/-- `data/opls.par`: (TYPE, RULE) in file order. -/\n"
-    s += "def oplsRules : List (String × String) := [\n  " + ",\n  ".join(
-        f"({_lean_str(t)}, {_lean_str(r)})" for _, t, r in rules) + "]\n\n"
-    s += "/-- rows of `data/ffnonbonded.itp` whose name is a TYPE of opls.par: (name, atomic number, mass·10⁵). -/\n"
+    ids = {}
+    for _, t, _ in rules:
+        ids.setdefault(t, len(ids))
+    s = "/-- type names of `data/opls.par` in order of first appearance; the position is the type's id -/\n"
+    s += "def typeNames : List String := [" + ", ".join(_lean_str(t) for t in ids) + "]\n\n"
+    s += "/-- `data/opls.par`: (type id, RULE as characters) in file order. -/\n"
+    s += "def oplsRules : List (Nat × List Char) := [\n  " + ",\n  ".join(
+        f"({ids[t]}, {_lean_chars(r)})" for _, t, r in rules) + "]\n\n"
+    s += "/-- rows of `data/ffnonbonded.itp` whose name is a TYPE of opls.par, in file order: (type id, atomic number, mass·10⁵). -/\n"
     items = []
     for name, z, mass in rows:
-        if name in used:
+        if name in ids:
             fr = Fraction(mass) * 100000
             if fr.denominator != 1:
                 raise Unsupported("mass with more than 5 decimals: " + mass)
-            items.append(f"({_lean_str(name)}, {z}, {fr.numerator})")
-    s += "def nbParams : List (String × Nat × Nat) := [\n  " + ",\n  ".join(items) + "]\n"
+            items.append(f"({ids[name]}, {z}, {fr.numerator})")
+    s += "def nbParams : List (Nat × Nat × Nat) := [\n  " + ",\n  ".join(items) + "]\n"
     return s
 
 
@@ -497,7 +508,7 @@ def extract_ff_tables():
 
 HEADER = """import GBS.Model.Basic
 /-!
-# GENERATED by /verif/harness/extract.py from /repo's working tree. Do not edit.
+# GENERATED by /verif/harness/extract.py from /repo's working tree (part: %s). Do not edit.
 -/
 set_option maxRecDepth 100000
 namespace GBS
@@ -513,22 +524,23 @@ def _part_bond():
 
 
 PARTS = [
-    ("bond", _part_bond),
-    ("token", lambda: extract_atom_tuples(_parse("token.py"))),
-    ("dist", lambda: extract_dist_dispatch(_parse("distribution.py"))),
-    ("masses", extract_atomic_masses),
-    ("ffcache", lambda: extract_ff_cache(_parse("forcefield_helper.py"))),
-    ("fftables", extract_ff_tables),
+    ("Bond", "bond", _part_bond),
+    ("Token", "token", lambda: extract_atom_tuples(_parse("token.py"))),
+    ("Dist", "dist", lambda: extract_dist_dispatch(_parse("distribution.py"))),
+    ("Masses", "masses", extract_atomic_masses),
+    ("FFCache", "ffcache", lambda: extract_ff_cache(_parse("forcefield_helper.py"))),
+    ("FFTables", "fftables", extract_ff_tables),
 ]
 
 
 def generate(write_pinned=False):
-    """Returns (text, stale) where stale maps part -> reason for parts the translator could not
-    regenerate; for those the text of the pinned tree is substituted so that *other* properties'
-    models still build, and every property depending on a stale part reports a broken tie."""
-    out = [HEADER]
+    """Returns ({module: text}, stale) where stale maps part -> reason for parts the translator could not
+    regenerate; for those the text of the last good tree is substituted so that *other* properties'
+    models still build, and every property depending on a stale part reports a broken tie.
+    One Lean file per part: a change of one part rebuilds only what depends on it."""
+    files = {}
     stale = {}
-    for name, fn in PARTS:
+    for mod, name, fn in PARTS:
         try:
             text = fn()
         except (Unsupported, SyntaxError, OSError, ValueError, KeyError, IndexError, AttributeError) as exc:
@@ -540,32 +552,29 @@ def generate(write_pinned=False):
                 os.makedirs(PINNED_DIR, exist_ok=True)
                 with open(os.path.join(PINNED_DIR, name + ".lean"), "w") as fh:
                     fh.write(text)
-        out.append(f"-- part: {name}" + (" (STALE: pinned text)" if name in stale else "") + "\n")
-        out.append(text)
-        out.append("\n")
-    out.append("end GBS\n")
-    return "".join(out), stale
+        files[mod] = (HEADER % (name + (" — STALE: text of the last good tree" if name in stale else ""))) + text + "\nend GBS\n"
+    return files, stale
 
 
 def main():
     import json
-    args = [a for a in sys.argv[1:] if not a.startswith("--")]
     lean_dir = os.path.join(os.path.dirname(os.path.abspath(__file__)), "..", "lean")
-    out = args[0] if args else os.path.join(lean_dir, "GBS", "Extracted.lean")
-    text, stale = generate(write_pinned="--write-pinned" in sys.argv)
-    old = None
-    if os.path.exists(out):
-        with open(out) as fh:
-            old = fh.read()
-    if old != text:
-        tmp = out + ".tmp%d" % os.getpid()
-        with open(tmp, "w") as fh:
-            fh.write(text)
-        os.replace(tmp, out)
-        print("EXTRACT: updated", os.path.normpath(out))
-    else:
-        print("EXTRACT: unchanged")
-    with open(os.path.join(os.path.dirname(out), "..", ".extract_status.json"), "w") as fh:
+    out_dir = os.path.join(lean_dir, "GBS", "Extracted")
+    os.makedirs(out_dir, exist_ok=True)
+    files, stale = generate(write_pinned="--write-pinned" in sys.argv)
+    for mod, text in files.items():
+        out = os.path.join(out_dir, mod + ".lean")
+        old = None
+        if os.path.exists(out):
+            with open(out) as fh:
+                old = fh.read()
+        if old != text:
+            tmp = out + ".tmp%d" % os.getpid()
+            with open(tmp, "w") as fh:
+                fh.write(text)
+            os.replace(tmp, out)
+            print("EXTRACT: updated", os.path.normpath(out))
+    with open(os.path.join(lean_dir, ".extract_status.json"), "w") as fh:
         json.dump({"stale": stale}, fh)
     for k, v in stale.items():
         print(f"EXTRACT-UNSUPPORTED part={k}: {v}")
